@@ -489,7 +489,7 @@ def _tx(self, op):
             # deletes later or re-points (its in-session reference was changed before)?
             dbstate = self.dbstate if self.dbstate is not None else self.committed     # what the database holds (last full flush)
             gone = set(dbstate.objs) - set(self.working.objs)
-            referenced = False; referrers = set()
+            referenced = False; referrers = set(); parents = set()
             # only rows of the table whose DELETE failed matter: other deleted rows may be referenced by rows that are
             # deleted before them, which is a fine order
             m = re.match(r'DELETE FROM "([^"]+)"', failed_sql)
@@ -506,13 +506,17 @@ def _tx(self, op):
                     y = x.vals.get(a.name)
                     if y in gone and (xo in gone or self.working.objs[xo].vals.get(a.name) != y):
                         if failed_table is not None and table_of(y) != failed_table: continue
-                        referenced = True; referrers.add(xo)
+                        referenced = True; referrers.add(xo); parents.add(y)
             # the known mechanism: the referring row had a pending UPDATE and was then deleted (its DELETE went to the end
             # of the queue, behind the DELETE of the row it still references in the database)
             mtd = bool(referrers) and all(x in self.mod_then_del for x in referrers)
+            # on the unchanged code a deleted row that had a pending UPDATE is deleted LAST (its DELETE goes to the end of
+            # the queue), so it cannot be the row whose DELETE came too early
+            parent_mtd = any(y in self.mod_then_del for y in parents)
             self.report('fkorder', 'foreign_key_error_on_flush', {'op': kind, 'exc': name, 'msg': msg[:200], 'cycle': cycle,
                                                                   'failed_sql': failed_sql, 'deleted_row_still_referenced_in_db': referenced,
-                                                                  'referrers_modified_then_deleted': mtd})
+                                                                  'referrers_modified_then_deleted': mtd,
+                                                                  'deleted_row_had_pending_update': parent_mtd})
         if name == 'UnresolvableCyclicDependency':
             if cycle: self.c('fkorder.cycle_refused')
             else: self.report('fkorder', 'cyclic_dependency_error_without_cycle', {'op': kind, 'msg': msg[:200]})
